@@ -38,6 +38,7 @@ FamilySet == CASE Fam = "F1" -> {<<b>> : b \in F1Bodies}
                [] Fam = "HID" -> {<<b>> : b \in HiddenBodies}
                [] Fam = "F3" -> F3Pairs
                [] Fam = "HID2" -> Hidden2Pairs
+               [] Fam = "TSH" -> TrimShare
                [] Fam = "LRF" -> {<<b>> : b \in LRFreeBodies}
                [] Fam = "OPT" -> {<<b>> : b \in OptBodies}
                [] Fam = "LINES" -> {<<b>> : b \in LineBodies}
